@@ -41,8 +41,10 @@ VARIABLES S,       \* md.HTTP2Frames.Settings           (sequence of <<id, val>>
           nreq,    \* requests sent so far (stream ids 1, 3, 5, ...)
           acked,   \* the client has acknowledged the server's SETTINGS (a second ACK is a protocol error)
           hist,    \* frame history (only when TrackHist)
-          fp       \* observation: Marshal for every limit in Ns, as the last request saw it
-vars == <<S, hasS, WU, P, H, nreq, acked, hist, fp>>
+          fp,      \* observation: Marshal for every limit in Ns, as the last request saw it
+          fpAlt    \* the other value the statement admits for the last request ("a point not earlier than the request's own HEADERS
+                   \* frame"): differs from fp only for a request whose trailer block the client sent right behind it
+vars == <<S, hasS, WU, P, H, nreq, acked, hist, fp, fpAlt>>
 
 AllN(s, w, p, h) == [k \in 1..Len(Ns) |-> Marshal(s, w, p, h, Ns[k])]
 
@@ -54,11 +56,13 @@ FirstWU(hs) == LET idx == { k \in 1..Len(hs) : hs[k][1] \in WUFrames } IN
                IF idx = {} THEN 0 ELSE IncrOf(hs[CHOOSE k \in idx : \A j \in idx : k <= j][1])
 PrioEntry(e) == IF e[1] \in PrioFrames THEN << PrioOf(e[1]) >>
                 ELSE IF e[1] \in HeaderFrames /\ HasPrio(e[1]) THEN << HdrPrio(e[1], e[2]) >>
+                ELSE IF e[1] = "T1" THEN << TrPrio(e[2]) >>
                 ELSE <<>>
 RECURSIVE AllPrios(_)
 AllPrios(hs) == IF hs = <<>> THEN <<>> ELSE PrioEntry(hs[1]) \o AllPrios(Tail(hs))
-LatestBlock(hs) == LET idx == { k \in 1..Len(hs) : hs[k][1] \in HeaderFrames } IN
-                   IF idx = {} THEN <<>> ELSE OrderOf(hs[CHOOSE k \in idx : \A j \in idx : j <= k][1])
+LatestBlock(hs) == LET idx == { k \in 1..Len(hs) : hs[k][1] \in HeaderFrames \cup TrailerKinds } IN
+                   IF idx = {} THEN <<>> ELSE LET f == hs[CHOOSE k \in idx : \A j \in idx : j <= k][1] IN
+                                              IF f \in TrailerKinds THEN <<>> ELSE OrderOf(f)
 FP(hs, n) == SPart(LatestSettings(hs)) \o "|"
              \o (IF FirstWU(hs) = 0 THEN "00" ELSE Pad2(FirstWU(hs))) \o "|"
              \o (LET ps == AllPrios(hs) m == Min(Len(ps), n) IN
@@ -70,23 +74,23 @@ Rec(f, sid) == IF TrackHist THEN Append(hist, <<f, sid>>) ELSE hist
 Room == ~TrackHist \/ Len(hist) < MaxHist
 
 Init == /\ S = <<>> /\ hasS = FALSE /\ WU = 0 /\ P = <<>> /\ H = <<>> /\ nreq = 0 /\ acked = FALSE
-        /\ hist = <<>> /\ fp = <<>>
+        /\ hist = <<>> /\ fp = <<>> /\ fpAlt = <<>>
 
 OnSettings(f) == /\ Room /\ f \in SettingsFrames
                  /\ S' = SettingsOf(f) /\ hasS' = TRUE /\ hist' = Rec(f, 0)
-                 /\ UNCHANGED <<WU, P, H, nreq, acked, fp>>
+                 /\ UNCHANGED <<WU, P, H, nreq, acked, fp, fpAlt>>
 OnSettingsAck == /\ Room /\ hasS /\ ~acked /\ acked' = TRUE /\ hist' = Rec("SA", 0)
-                 /\ UNCHANGED <<S, hasS, WU, P, H, nreq, fp>>
+                 /\ UNCHANGED <<S, hasS, WU, P, H, nreq, fp, fpAlt>>
 OnPing == /\ Room /\ hasS /\ TrackHist /\ hist' = Rec("PING", 0)          \* pass-through; a self-loop without history
-          /\ UNCHANGED <<S, hasS, WU, P, H, nreq, acked, fp>>
+          /\ UNCHANGED <<S, hasS, WU, P, H, nreq, acked, fp, fpAlt>>
 OnWindowUpdate(f) == /\ Room /\ hasS /\ f \in WUFrames
                      /\ (f = "Ws" => nreq > 0)                       \* WINDOW_UPDATE on an idle stream is a connection error
                      /\ WU' = IF WU = 0 THEN IncrOf(f) ELSE WU
                      /\ hist' = Rec(f, IF f = "Ws" THEN 2 * nreq - 1 ELSE 0)
-                     /\ UNCHANGED <<S, hasS, P, H, nreq, acked, fp>>
+                     /\ UNCHANGED <<S, hasS, P, H, nreq, acked, fp, fpAlt>>
 OnPriority(f) == /\ Room /\ hasS /\ f \in PrioFrames /\ Len(P) < MaxPrio
                  /\ P' = Append(P, PrioOf(f)) /\ hist' = Rec(f, PrioOf(f)[1])
-                 /\ UNCHANGED <<S, hasS, WU, H, nreq, acked, fp>>
+                 /\ UNCHANGED <<S, hasS, WU, H, nreq, acked, fp, fpAlt>>
 \* a request: HEADERS (END_STREAM) on the next odd stream; the handler marshals right after the capture
 OnHeaders(f) == /\ Room /\ hasS /\ f \in HeaderFrames /\ nreq < MaxReq
                 /\ (HasPrio(f) => Len(P) < MaxPrio)
@@ -95,7 +99,20 @@ OnHeaders(f) == /\ Room /\ hasS /\ f \in HeaderFrames /\ nreq < MaxReq
                    /\ P' = IF HasPrio(f) THEN Append(P, HdrPrio(f, sid)) ELSE P
                    /\ hist' = Rec(f, sid)
                 /\ nreq' = nreq + 1
-                /\ fp' = AllN(S, WU, P', H')
+                /\ fp' = AllN(S, WU, P', H') /\ fpAlt' = fp'
+                /\ UNCHANGED <<S, hasS, WU, acked>>
+\* a request with a trailer block: HEADERS (block of H1, stream left open) and, right behind it, the trailer HEADERS frame that ends
+\* the stream.  processFrame captures both: the trailer block replaces Headers (no pseudo-header fields in it) and appends its priority
+\* if it carries one.  The handler marshals somewhere around the second capture (fp: before it, fpAlt: after it).
+OnRequestWithTrailers(t) ==
+                /\ (~TrackHist \/ Len(hist) + 1 < MaxHist) /\ hasS /\ t \in TrailerKinds /\ nreq < MaxReq
+                /\ (t = "T1" => Len(P) < MaxPrio)
+                /\ LET sid == 2 * nreq + 1 IN
+                   /\ H' = <<>>
+                   /\ P' = IF t = "T1" THEN Append(P, TrPrio(sid)) ELSE P
+                   /\ hist' = IF TrackHist THEN hist \o << <<"H1", sid>>, <<t, sid>> >> ELSE hist
+                /\ nreq' = nreq + 1
+                /\ fp' = AllN(S, WU, P, OrderOf("H1")) /\ fpAlt' = AllN(S, WU, P', <<>>)
                 /\ UNCHANGED <<S, hasS, WU, acked>>
 
 Next == \/ \E f \in SettingsFrames : OnSettings(f)
@@ -103,6 +120,7 @@ Next == \/ \E f \in SettingsFrames : OnSettings(f)
         \/ \E f \in WUFrames : OnWindowUpdate(f)
         \/ \E f \in PrioFrames : OnPriority(f)
         \/ \E f \in HeaderFrames : OnHeaders(f)
+        \/ \E t \in TrailerKinds : OnRequestWithTrailers(t)
 Spec == Init /\ [][Next]_vars
 
 \* ---------------------------------------------------------------- properties
